@@ -257,6 +257,32 @@ func respKey(kw string) string {
 	return kw
 }
 
+// gobPrefill: the destination of a gob transport need not be fresh.  For the kinds whose decoder is the
+// package's own (Swagger, Operation: they promise to rebuild the value), another value of the kind is
+// decoded into the destination first; what arrives afterwards must replace it entirely.
+func gobPrefill(top string, dst interface{}) error {
+	var prev interface{}
+	switch top {
+	case "swagger":
+		var sw spec.Swagger
+		_ = json.Unmarshal([]byte(`{"swagger":"2.0","info":{"title":"previous","version":"0","x-prev-info":1},"paths":{"/prev":{"get":{"responses":{"200":{"description":"p"}}}}},`+
+			`"host":"prev.example","x-previous":{"a":[1]},"security":[{"prev":["s"]}],"definitions":{"Prev":{"title":"prev"}}}`), &sw)
+		prev = &sw
+	case "operation":
+		var op spec.Operation
+		_ = json.Unmarshal([]byte(`{"operationId":"previous","summary":"prev","x-previous":{"a":[1]},"security":[{"prev":["s"]}],`+
+			`"responses":{"200":{"description":"p"},"x-prev-resp":1},"tags":["prev"]}`), &op)
+		prev = &op
+	default:
+		return nil
+	}
+	var buf bytes.Buffer
+	if err := gob.NewEncoder(&buf).Encode(prev); err != nil {
+		return err
+	}
+	return gob.NewDecoder(&buf).Decode(dst)
+}
+
 func strFor(name string) interface{} {
 	switch name {
 	case "type":
@@ -466,6 +492,10 @@ func valueFor(name, vt, cls string, wild bool) interface{} {
 		switch cls {
 		case "secNone":
 			return []interface{}{}
+		case "secAnon":
+			return []interface{}{obj{}}
+		case "secAnonMixed":
+			return []interface{}{obj{}, obj{"k": []interface{}{}}, obj{"j": []interface{}{"s1"}}}
 		case "secEmptyScopes":
 			return []interface{}{obj{"k": []interface{}{}}}
 		case "secTwo":
@@ -876,6 +906,8 @@ func runCodec(id int, c codecCase) (o *codecObs) {
 			o.Gob, o.GobDiff = "error", ascii("encode: "+err.Error())
 		} else if after, _ := json.Marshal(target); !bytes.Equal(after, n1) {
 			o.Gob, o.GobDiff = "diff", ascii("gob-encoding changed the value that was encoded: "+trim(string(after), 300))
+		} else if err := gobPrefill(top, t4); err != nil {
+			o.Gob, o.GobDiff = "error", ascii("prefill: "+err.Error())
 		} else if err := gob.NewDecoder(&buf).Decode(t4); err != nil {
 			o.Gob, o.GobDiff = "error", ascii("decode: "+err.Error())
 		} else if g1, err := json.Marshal(t4); err != nil {
